@@ -110,9 +110,51 @@ theorem sealed_one_octet_damage_detected (p s : List Nat) (x y : Nat) (hp : Octe
     x y hp hs' hx hy hne (by simpa [List.append_assoc] using good)
   simpa [List.append_assoc] using this
 
+/-- two consecutive steps are injective in the pair of octets (a 16-bit burst never cancels) -/
+theorem two_steps_inj (r x1 x2 y1 y2 : Nat) (hr : r < 65536) (hx1 : x1 < 256) (hx2 : x2 < 256)
+    (hy1 : y1 < 256) (hy2 : y2 < 256)
+    (h : Fcs.next (Fcs.next r x1) x2 = Fcs.next (Fcs.next r y1) y2) : x1 = y1 ∧ x2 = y2 := by
+  rw [two_steps r x1 x2 hr hx1 hx2, two_steps r y1 y2 hr hy1 hy2] at h
+  have tx := trailer_lt x1 x2 hx1 hx2
+  have ty := trailer_lt y1 y2 hy1 hy2
+  have h1 : r ^^^ (x1 ^^^ x2 * 256) < 65536 := Nat.xor_lt_two_pow (n := 16) hr tx
+  have h2 : r ^^^ (y1 ^^^ y2 * 256) < 65536 := Nat.xor_lt_two_pow (n := 16) hr ty
+  have e := xor_cancel_left (iter_inj 16 _ _ h1 h2 h)
+  rw [trailer_eq_add x1 x2 hx1, trailer_eq_add y1 y2 hy1] at e
+  omega
+
+/-- **Two adjacent octets.** Damage confined to two neighbouring octets (a burst of at most 16 bits) of a
+    good message is always detected — any length, any position. -/
+theorem two_adjacent_octets_damage_detected (p s : List Nat) (x1 x2 y1 y2 : Nat) (hp : Octets p)
+    (hs : Octets s) (hx1 : x1 < 256) (hx2 : x2 < 256) (hy1 : y1 < 256) (hy2 : y2 < 256)
+    (hne : ¬ (x1 = y1 ∧ x2 = y2))
+    (good : Fcs.isGood (Fcs.feed fcsInit (p ++ x1 :: x2 :: s)) = true) :
+    Fcs.isGood (Fcs.feed fcsInit (p ++ y1 :: y2 :: s)) = false := by
+  unfold Fcs.isGood at *
+  have g1 : fcsGood = Fcs.feed fcsInit (p ++ x1 :: x2 :: s) := by simpa using good
+  cases hb : (fcsGood == Fcs.feed fcsInit (p ++ y1 :: y2 :: s)) with
+  | false => rfl
+  | true =>
+    have g2 : fcsGood = Fcs.feed fcsInit (p ++ y1 :: y2 :: s) := by simpa using hb
+    have e := g1.symm.trans g2
+    rw [feed_append, feed_append] at e
+    simp only [Fcs.feed, List.foldl_cons] at e
+    have hr : Fcs.feed fcsInit p < 65536 := feed_lt _ _ (by decide) hp
+    have hr' : List.foldl Fcs.next fcsInit p < 65536 := hr
+    have e' := feed_inj_register s _ _
+      (next_lt _ x2 (next_lt _ x1 hr' hx1) hx2) (next_lt _ y2 (next_lt _ y1 hr' hy1) hy2) hs e
+    exact absurd (two_steps_inj _ x1 x2 y1 y2 hr' hx1 hx2 hy1 hy2 e') hne
+
+
 /-- non-vacuity: a good message and a damaged copy -/
 example : Fcs.isGood (Fcs.feed fcsInit ([1, 2, 3] ++ [fcs16 [1, 2, 3] % 256, fcs16 [1, 2, 3] / 256])) = true ∧
     Fcs.isGood (Fcs.feed fcsInit ([1, 7, 3] ++ [fcs16 [1, 2, 3] % 256, fcs16 [1, 2, 3] / 256])) = false := by
   decide +kernel
+
+/-- non-vacuity of the two-octet form: the theorem applied to a concrete good message -/
+example : Fcs.isGood (Fcs.feed fcsInit ([1] ++ 9 :: 7 :: [fcs16 [1, 2, 3] % 256, fcs16 [1, 2, 3] / 256])) = false :=
+  two_adjacent_octets_damage_detected [1] [fcs16 [1, 2, 3] % 256, fcs16 [1, 2, 3] / 256] 2 3 9 7
+    (by decide) (by decide +kernel) (by decide) (by decide) (by decide) (by decide) (by decide)
+    (by decide +kernel)
 
 end Amshan.C03
